@@ -328,7 +328,7 @@ def tr_safety(run):
         bad[k] = False if k in boolk else (b"\x00" if k in bytek else 0)
     # 'bad' numeric values that cannot satisfy consts_ok: 0 fails the ">= 1" tests for sizes; for upper-bounded fields use a huge value
     for k in ("s_ds_buf_adj", "s_chain_copy_n", "s_log_skip", "s_cfg_skip", "s_ini_max_line", "s_ini_section_copy", "s_ini_name_copy", "s_st_fread_n", "s_st_comm_limit",
-              "s_sock_path_size", "s_login_with_nul", "s_login_without_nul", "s_dt_size", "s_tag_skip", "s_close_skip", "s_default_chain_len", "s_hardmax_log", "s_hardmax_ds",
+              "s_sock_path_size", "s_login_with_nul", "s_login_without_nul", "s_dt_size", "s_default_chain_len", "s_hardmax_log", "s_hardmax_ds",
               "s_env_trunc_sub", "s_log_malloc_adj", "s_factor_m"):
         bad[k] = 1 << 62
     for k in list(v):
